@@ -133,6 +133,8 @@ pub struct Exec<A: Ar> {
     pub reserved_pat: Vec<u8>,
     pub ro: bool,
     pub cow: bool,
+    /// issue truncate although other arena values / owned handles are alive (they legally can be)
+    pub shared_truncate: bool,
     pub rewound: bool,
     pub dead: bool,
     pub step: usize,
@@ -201,6 +203,7 @@ impl<A: Ar> Exec<A> {
             reserved_pat: Vec::new(),
             ro: false,
             cow: false,
+            shared_truncate: false,
             rewound: false,
             dead: false,
             step: 0,
@@ -310,6 +313,9 @@ impl<A: Ar> Exec<A> {
             ("C13", "release_cursor") | ("C13", "release_effect") | ("C13", "release_amount") | ("C13", "refs") | ("C13", "value_drop") | ("C13", "detached_released") | ("C13", "clone_side_effect") => false,
             ("C04", "error_kind") | ("C04", "error_not_clean") | ("C04", "readonly_alloc") => false,
             ("C18", "capacity") | ("C18", "refused_fitting") => false,
+            // a clear() that leaves something behind: the consequences (stale bytes handed out, a file that does not
+            // reopen) belong to other properties and must stay observable
+            ("C17", "clear_state") | ("C17", "clear_not_zeroed") => false,
             ("C05", "header_changed") | ("C05", "meta_changed") | ("C05", "freelist_changed") | ("C05", "reserved_changed") | ("C05", "bytes_changed") => false,
             _ => true,
         };
@@ -1177,6 +1183,10 @@ impl<A: Ar> Exec<A> {
         let Some(path) = self.path.clone() else {
             return self.obs("noop".into(), None, None);
         };
+        if self.remove_on_drop {
+            // the file goes away with the last handle: there is nothing to reopen
+            return self.obs("noop".into(), None, None);
+        }
         // ---- close
         let a = self.a();
         let closing_writable_durable = !self.ro && !self.cow;
@@ -1293,12 +1303,19 @@ impl<A: Ar> Exec<A> {
     }
 
     fn truncate(&mut self, n: u32) -> Obs {
-        if self.live_arenas() != 1 || self.live.iter().any(|l| l.r.owned) {
+        let shared = self.live_arenas() != 1 || self.live.iter().any(|l| l.r.owned);
+        if shared && !self.shared_truncate {
             return self.obs("noop".into(), None, None);
         }
         // truncate takes &mut self: no borrowed handle can be alive across it; what they refer to stays
         // allocated as detached data
-        while let Some(mut l) = self.live.pop() {
+        let mut i = 0;
+        while i < self.live.len() {
+            if self.live[i].r.owned {
+                i += 1;
+                continue;
+            }
+            let mut l = self.live.remove(i);
             l.h.0.detach_();
             let r = l.r.clone();
             drop(l);
@@ -1320,6 +1337,33 @@ impl<A: Ar> Exec<A> {
         };
         self.stats.truncates += 1;
         self.install_hook();
+        if shared && r.is_ok() {
+            // Every other arena value and every owned handle must still refer to the memory the arena now uses.
+            // Judged on addresses only: nothing is dereferenced.
+            let a = self.arenas[idx].as_ref().unwrap();
+            let (base, cap) = (a.raw_ptr() as usize, a.capacity());
+            let mut stale: Vec<String> = Vec::new();
+            for (j, o) in self.arenas.iter().enumerate() {
+                if let Some(o) = o {
+                    if j != idx && o.raw_ptr() as usize != base {
+                        stale.push(format!("arena value #{} still uses the old mapping", j));
+                    }
+                }
+            }
+            for l in self.live.iter_mut() {
+                if l.r.cap > 0 {
+                    let p = l.h.0.wptr() as usize;
+                    if p < base || p + l.r.cap > base + cap {
+                        stale.push(format!("owned handle id={} [{},{}) points outside the arena's memory", l.r.id, l.r.off, l.r.off + l.r.cap));
+                    }
+                }
+            }
+            if !stale.is_empty() {
+                self.v("C18", "dangling_after_truncate", format!("[shared] truncate({}) with {} arena values and {} owned handles alive replaced the backing memory under them: {}", n, self.live_arenas(), self.live.len(), stale.join("; ")));
+                self.dead = true;
+                return Obs { result: "crash:dangling".into(), ..Default::default() };
+            }
+        }
         let a = self.a();
         let post = a.snap();
         if self.ro {
